@@ -17,7 +17,7 @@ from .core import cq_bool, cq_list, cq_pos
 THEOREMS = ["C14_subst_sound", "C14_pass_replace_parameter_values", "C14_pass_constant_assignments",
             "C14_pass_eliminable_forward_partial", "C14_substitution_step_partial", "C14_alias_shapes_partial",
             "C14_slow_path_refuted", "C14_pass_replace_expressions", "C14_pass_eliminable",
-            "C14_pass_replace_constant_values_partial", "C14_alias_add_sound", "C14_pass_detect_aliases",
+            "C14_pass_replace_constant_values_partial", "C14_pass_eliminable_states_partial", "C14_alias_add_sound", "C14_pass_detect_aliases",
             "C14_simplify_once_preserves", "C14_preserves", "C14_preserves_example", "C14_example"]
 
 MODELLED_BOOL = ["replace_parameter_expressions", "replace_constant_expressions",
@@ -505,6 +505,99 @@ def gen_elim_state_model(rng):
             "n_unknowns": len(eqs), "elim_graph": {}, "names": sorted(val)}
 
 
+NEARDUP = [(1514761200, 3600), (1514761200, 1800), (1000000, 0.5), (123456700, 64), (2500000, 1),
+           (16777216, 8), (987654300, 0.25), (4000000, 2.5)]
+
+
+def gen_neardup_case(rng):
+    """scalar triangular model whose literals come from a NEAR-DUPLICATE family (pairs that agree in their
+    first six significant digits), simplified through the expand_vectors + expand_mx path (SX round trip)"""
+    base, delta = rng.choice(NEARDUP)
+    k1, k2 = F(base), F(base) + F(delta)
+    val = {"time": F(0)}
+    decl, eqs = [], []
+    if rng.random() < 0.6:
+        decl.append("parameter Real p1 = %s;" % repr(float(k1)))
+        val["p1"] = k1
+        first = "p1"
+    else:
+        first = repr(float(k1))
+    n = rng.randint(4, 6)
+    consts = [k1, k2, k2, k1, k2 + F(delta), k1]
+    rng.shuffle(consts)
+    for i in range(1, n + 1):
+        a = "a%d" % i
+        decl.append("Real %s;" % a)
+        kk = consts[(i - 1) % len(consts)]
+        if i == 1:
+            eqs.append("%s = %s + %s" % (a, first, repr(float(delta))))
+            val[a] = k1 + F(delta)
+        else:
+            w = "a%d" % rng.randint(1, i - 1)
+            form = rng.choice(["%(k)s - %(w)s", "%(w)s - %(k)s", "0.25 * %(w)s + %(k)s", "%(k)s + %(w)s"])
+            eqs.append("%s = %s" % (a, form % {"k": repr(float(kk)), "w": w}))
+            val[a] = {"%(k)s - %(w)s": kk - val[w], "%(w)s - %(k)s": val[w] - kk,
+                      "0.25 * %(w)s + %(k)s": val[w] / 4 + kk, "%(k)s + %(w)s": kk + val[w]}[form]
+    rng.shuffle(eqs)
+    text = "model M\n  %s\nequation\n  %s;\nend M;\n" % ("\n  ".join(decl), ";\n  ".join(eqs))
+    o = {"expand_vectors": True, "expand_mx": True,
+         "replace_parameter_values": rng.random() < 0.4, "detect_aliases": rng.random() < 0.4,
+         "eliminate_constant_assignments": rng.random() < 0.3, "replace_constant_values": rng.random() < 0.3}
+    return {"text": text, "cls": "M", "options": o, "point": {k: float(v) for k, v in val.items()}, "points": [],
+            "meta": {"kinds": {"near_duplicate_constants": 1}, "n_unknowns": n, "elim_graph": {}}}
+
+
+def gen_matrix_case(rng):
+    """rank-2, non-square, non-symmetric matrix parameters / constants whose values are expressions in other
+    parameters (`gain * B`, `B + C`), used through `A * x` and element-wise, under expand_vectors"""
+    r, c = rng.choice([(2, 3), (3, 2)])
+    gain = dy(rng, 1, 3, 1, nonzero=True)
+
+    def mat():
+        vals = rng.sample([F(k, 2) for k in range(1, 40) if k != 2], r * c)
+        return [[vals[i * c + j] for j in range(c)] for i in range(r)]
+    B, C = mat(), mat()
+    kindA = rng.choice(["gain*B", "B+C", "gain*B+C"])
+    A = [[{"gain*B": gain * B[i][j], "B+C": B[i][j] + C[i][j], "gain*B+C": gain * B[i][j] + C[i][j]}[kindA]
+          for j in range(c)] for i in range(r)]
+    lit = lambda M: "{" + ", ".join("{" + ", ".join(repr(float(v)) for v in row) + "}" for row in M) + "}"
+    cq = "constant" if rng.random() < 0.3 else "parameter"
+    decl = ["parameter Real gain = %s;" % repr(float(gain)),
+            "parameter Real B[%d,%d] = %s;" % (r, c, lit(B)),
+            "%s Real C[%d,%d] = %s;" % (cq, r, c, lit(C)),
+            "parameter Real A[%d,%d] = %s;" % (r, c, {"gain*B": "gain * B", "B+C": "B + C", "gain*B+C": "gain * B + C"}[kindA]),
+            "Real x[%d];" % c, "Real y[%d];" % r, "Real z;"]
+    x = [dy(rng, -3, 3, 2, nonzero=True) for _ in range(c)]
+    y = [sum(A[i][j] * x[j] for j in range(c)) for i in range(r)]
+    eqs = ["y = A * x"]
+    for j in range(c):
+        eqs.append("x[%d] = %s" % (j + 1, num(x[j])))
+    i0, j0, i1, j1 = rng.randrange(r), rng.randrange(c), rng.randrange(r), rng.randrange(c)
+    z = A[i0][j0] * x[j0] + B[i1][j1]
+    eqs.append("z = A[%d,%d] * x[%d] + B[%d,%d]" % (i0 + 1, j0 + 1, j0 + 1, i1 + 1, j1 + 1))
+    rng.shuffle(eqs)
+    text = "model M\n  %s\nequation\n  %s;\nend M;\n" % ("\n  ".join(decl), ";\n  ".join(eqs))
+    pt = {"time": 0.0, "gain": float(gain), "z": float(z),
+          "x": [float(v) for v in x], "y": [float(v) for v in y]}
+    for nm, M in (("A", A), ("B", B), ("C", C)):
+        pt[nm] = [[float(v) for v in row] for row in M]
+        for i in range(r):
+            for j in range(c):
+                pt["%s[%d,%d]" % (nm, i + 1, j + 1)] = float(M[i][j])
+    for j in range(c):
+        pt["x[%d]" % (j + 1)] = float(x[j])
+    for i in range(r):
+        pt["y[%d]" % (i + 1)] = float(y[i])
+    emx = rng.random() < 0.5
+    o = {"expand_vectors": True, "expand_mx": emx,
+         "replace_parameter_expressions": rng.random() < 0.5, "replace_parameter_values": rng.random() < 0.5,
+         "replace_constant_values": emx and rng.random() < 0.4,
+         "replace_constant_expressions": emx and rng.random() < 0.3}
+    return {"text": text, "cls": "M", "options": o, "point": pt, "points": [],
+            "meta": {"kinds": {"matrix_parameter_" + kindA: 1}, "n_unknowns": r + c + 1, "elim_graph": {},
+                     "arrays": True, "singular": True}}
+
+
 def gen_alias_options(rng):
     o = {"detect_aliases": True,
          "eliminate_constant_assignments": rng.random() < 0.5,
@@ -645,7 +738,7 @@ def judge_c14(case, res):
     if "simplify_exc" in res or limit_warning(res):
         return None          # failure was reported: allowed by the property
     post = res["post"]
-    pt = {k: F(v) for k, v in case["point"].items()}
+    pt = {k: F(v) for k, v in case["point"].items() if not isinstance(v, list)}
     if case["options"].get("reduce_affine_expression"):
         # equations are now over the state vectors: judge through the residual functions
         for which in ("dae_residual", "initial_residual"):
@@ -682,6 +775,11 @@ def judge_c14(case, res):
         if v is not None and v[0] == "c" and n in pt and F(v[1], v[2]) != pt[n]:
             return ("constant-wrong", "recorded constant %s = %s but the original solution has %s"
                     % (n, F(v[1], v[2]), pt[n]))
+    for n, v in post.get("recorded_values", []):
+        if isinstance(v, list) and n in case["point"] and not isinstance(case["point"][n], list) \
+                and F(v[0], v[1]) != F(case["point"][n]):
+            return ("recorded-value-wrong", "remaining parameter/constant %s is recorded with value %s, the model "
+                    "says %s" % (n, F(v[0], v[1]), F(case["point"][n])))
     jac = post["jac"]
     if jac.get("rank") is None:
         return ("free-symbol", "Jacobian of the simplified system cannot be evaluated: %s" % jac.get("msg"))
@@ -712,6 +810,8 @@ def judge_c15(case, res):
     o = case["options"]
     keep = [("inputs", True), ("states", not elim_on(case)), ("ders", not elim_on(case)),
             ("params", not any(o.get(k) for k in ("replace_parameter_values", "replace_parameter_expressions")))]
+    if case["meta"].get("arrays"):
+        keep = []            # expand_vectors renames every array variable
     for k, applies in keep:
         a = [x[0] if isinstance(x, list) else x for x in pre[k]]
         b = [x[0] if isinstance(x, list) else x for x in post[k]]
@@ -721,6 +821,8 @@ def judge_c15(case, res):
     b0 = len(pre["ders"]) + len(pre["algs"]) - len(pre["eqs"])
     n_eqs = post["dae_residual"].get("n") if o.get("reduce_affine_expression") else post["n_eqs"]
     b1 = len(post["ders"]) + len(post["algs"]) - (n_eqs or 0)
+    if case["meta"].get("arrays"):
+        b0 = b1          # vector-valued variables / equations before expansion: counts are not comparable
     # pymoca's own balance counts states + alg_states (= der_states + alg_states for scalar models)
     if b0 != b1 or len(post["states"]) != len(post["ders"]):
         return (TAG_CONTRA if contra_lost(case, post) else "unbalanced", "unknowns - equations changed from %d to %d (states %d, ders %d, algs %d, eqs %d)"
@@ -924,6 +1026,11 @@ def build_cases(ctx):
         c = make_case(rng, mdl, o)
         c["repeat"] = rng.randint(2, 4)
         extra.append(c)
+    # oracle-only: the expand paths (no arrays / SX round trip in the Coq model)
+    for _ in range(ctx.scaled(14, 100)):
+        extra.append(gen_neardup_case(rng))
+    for _ in range(ctx.scaled(14, 100)):
+        extra.append(gen_matrix_case(rng))
     # oracle-only: contradictory alias pairs (a = b; a = -b: both zero).  Not in the correspondence:
     # the model mirrors fixes/C14_contradictory_alias_keeps_equation.diff
     for _ in range(ctx.scaled(10, 60)):
